@@ -91,6 +91,8 @@ func checkC18(c *Ctx) {
 		}
 		c.c18Failover(fo)
 	}
+	// every write is counted: the exported Store goes through Write (and its cache_write), like Load through Read (C07 R07.6)
+	c.borrowKinds("C07", func() { c.c07LoadStore() }, "R18.2", "Load/Store:through-Read/Write", []string{"R07.6"}, "store-count", "load-read", "store-args")
 	c.c18Evict()
 	c.c18Wiring()
 	c.c18DefaultBackend()
